@@ -43,6 +43,7 @@ package uu
 //@   ensures source: forall(i, 0 <= i && i < len(src), src[i] == old(src[i]))
 //@   ensures prefix: imp(err == nil, len(res) >= len(dst) && forall(q, 0 <= q && q < len(dst), res[q] == old(dst[q])))
 //@   ensures failure_returns_no_buffer: imp(err != nil, len(res) == 0)
+//@   on assign dec(v): if len(v) == 3 { assert(32 <= chunk[0] && chunk[0] <= 95 && 32 <= chunk[1] && chunk[1] <= 95 && 32 <= chunk[2] && chunk[2] <= 95 && 32 <= chunk[3] && chunk[3] <= 95, "only_alphabet_characters_are_decoded"); assert(sext(v[0], v[1], v[2], 0) == chunk[0] - 32 && sext(v[0], v[1], v[2], 1) == chunk[1] - 32 && sext(v[0], v[1], v[2], 2) == chunk[2] - 32 && sext(v[0], v[1], v[2], 3) == chunk[3] - 32, "decoded_bytes_reencode_to_the_four_characters") }
 //@   loop 1 counter lineN
 //@     invariant apart: disjointSpare(dst, src)
 //@     invariant grows: len(dst) >= len(old(dst))
@@ -59,7 +60,8 @@ package uu
 //@     invariant own_copy: !sameArray(chunk, src) && !sameArray(chunk, dst) && fresh(chunk)
 //@     invariant source: forall(i, 0 <= i && i < len(src), src[i] == old(src[i]))
 //@     invariant prefix: forall(q, 0 <= q && q < len(old(dst)), dst[q] == old(dst[q]))
-//@   loop 1.1.2
+//@   loop 1.1.2 counter t
+//@     invariant validated_so_far: forall(u, 0 <= u && u < t, 32 <= chunk[u] && chunk[u] <= 95)
 
 // AppendEncode: the result is the old dst followed by the Perl-compatible
 // encoding of src; neither src nor the old contents of dst are modified.
